@@ -98,6 +98,10 @@ fn load_known(prop: &str) -> BTreeSet<String> {
 
 fn main() {
     let args: Vec<String> = std::env::args().collect();
+    if let Ok(filter) = std::env::var("KVERIF_LOG") {
+        // debugging aid: the agent's own log on stderr, e.g. KVERIF_LOG=klukai_agent=debug
+        let _ = tracing_subscriber::fmt().with_env_filter(tracing_subscriber::EnvFilter::new(filter)).with_writer(std::io::stderr).try_init();
+    }
     if args.len() >= 6 && args[1] == "c19-reader" {
         // helper process of C19: a database reader that is a process of its own
         std::process::exit(c19::reader_main(&args[2..]));
